@@ -28,7 +28,7 @@ DEADLINE_S = {'quick': 240, 'thorough': 2400}
 
 
 def budget(tier):
-	return {'quick': 800, 'thorough': 15000}[tier]
+	return {'quick': 1500, 'thorough': 15000}[tier]
 
 
 def enum_cases(tier):
